@@ -12,16 +12,17 @@ import (
 
 // One recorded call of a decoding entry point.
 type Call struct {
-	ID    int      `json:"id"`
-	API   string   `json:"api"`
-	Opts  CallOpts `json:"opts"`
-	Input []int    `json:"input"`
-	Avail int      `json:"avail"`
-	Fault int      `json:"fault"`
-	Reset int      `json:"reset"`
-	Reads [][]int  `json:"reads"`
-	Ret   CallRet  `json:"ret"`
-	Note  string   `json:"note,omitempty"`
+	ID    int       `json:"id"`
+	API   string    `json:"api"`
+	Opts  CallOpts  `json:"opts"`
+	Input []int     `json:"input"`
+	Avail int       `json:"avail"`
+	Fault int       `json:"fault"`
+	Reset int       `json:"reset"`
+	Reads [][]int   `json:"reads"`
+	Ret   CallRet   `json:"ret"`
+	Note  string    `json:"note,omitempty"`
+	Post  *PostProj `json:"post,omitempty"`
 	raw   []byte
 	Final string `json:"-"` // verdict the Contract gave (filled in after validation)
 	Why   string `json:"-"`
